@@ -262,7 +262,9 @@ def facts_at(fn, block):
             op = c[1]
             if not tv:
                 op = {'Lt': 'Ge', 'Le': 'Gt', 'Gt': 'Le', 'Ge': 'Lt', 'Eq': 'Ne', 'Ne': 'Eq'}[op]
-            res.append((op, c[2], c[3], tb, d))
+            # 6th element: the fact is the NEGATION of the comparison the code made (valid for integers; for floats a false
+            # `a <= b` does not give `a > b`: NaN)
+            res.append((op, c[2], c[3], tb, d, not tv))
         elif c[0] == 'call':
             res.append(('callbool', c, tv, tb, d))
     return res
